@@ -19,6 +19,22 @@ TB_COMMON = [
     "sync.WaitGroup / goroutine semantics modelled as a counter LTS, not verified",
 ]
 
+TB_EVAL = [
+    "Lean 4.33 kernel; axioms allowed: propext, Classical.choice, Quot.sound (audited per theorem)",
+    "hand-written Lean model of the interpreter (internal/base *.Evaluate, RuleEntity.Execute), of the data context "
+    "(context/data_context.go) and of the reflect helpers (internal/core), value level over the object language of "
+    "GV.Eval.Store; tied to the code by differential runs: the AST the real listener builds is dumped by reflection and "
+    "interpreted by the model, the real engine runs the same text on the same injected objects, and the reference "
+    "semantics is run on the generator's reference tree",
+    "ANTLR-generated lexer/parser: text -> tree is not modelled; tied by comparing the dumped AST with the lowering of the "
+    "reference tree (aspects shape / shape-pos)",
+    "facts regenerated from source on every run: recover sites, maxExecuteNum, sentinel errors (/verif/extract)",
+    "/verif/harness (generators, renderer, reflection dumper, host function library) and /verif/checklib comparator",
+    "Go reflect / strconv / float64 arithmetic as modelled by Lean's Int64/UInt64/Float; float->int conversion of "
+    "unrepresentable values is implementation defined and excluded (marked unspec, skipped)",
+]
+EVAL_FP = ["internal/base:", "context:", "internal/core:", "internal/iter:", "internal/iparser:"]
+
 PROPS = {
     "C04": {
         "lean": ["GV.Props.C04"],
@@ -69,11 +85,15 @@ PROPS = {
         "assumptions": [],
     },
     "C09": {
-        "lean": ["GV.Props.C09"],
+        "lean": ["GV.Props.C09", "GV.Props.C09r"],
         "scenarios": [{"scn": "orch", "n": {"quick": 400, "thorough": 5000},
-                       "aspects": ["crash", "driver", "build"]}],
-        "rule": "all 21 Execute* methods with failing rules in every position; crash = panic in the caller, process death (panic in a goroutine) or hang",
-        "trusted_base": TB_COMMON,
+                       "aspects": ["crash", "driver", "build"]},
+                      {"scn": "eval", "filter": "ill", "n": {"quick": 300, "thorough": 4000},
+                       "aspects": ["panic", "hang", "driver", "build"]},
+                      {"scn": "eval", "filter": "conc", "n": {"quick": 100, "thorough": 1500},
+                       "aspects": ["panic", "hang", "driver", "build"]}],
+        "rule": "engine: all 21 Execute* methods with failing rules in every position; crash = panic in the caller, process death (panic in a goroutine) or hang; rules: ill mode (one construct in eight ill-typed / unknown / out of range / panicking, unbounded loops incl. always-continue, writes reflect refuses) and conc mode with failing children, each execution under a 20 s watchdog",
+        "trusted_base": TB_COMMON + TB_EVAL, "fingerprints": EVAL_FP,
         "assumptions": ["injected functions terminate"],
     },
     "C08": {
@@ -90,13 +110,63 @@ PROPS = {
         "fingerprints": ["builder:", "internal/tool:", "internal/base:KnowledgeContext", "engine:updateIncremental"],
         "assumptions": ["one compile unit never defines a name twice (rejected by the listener, C10)"],
     },
+    "C01": {
+        "lean": ["GV.Props.C01"],
+        "scenarios": [{"scn": "eval", "filter": "expr", "n": {"quick": 400, "thorough": 6000},
+                       "aspects": ["value", "shape", "driver", "build"]},
+                      {"scn": "eval", "filter": "matrix", "n": {"quick": 196, "thorough": 1960},
+                       "aspects": ["value", "shape", "driver", "build"]}],
+        "rule": "expr: random expression trees (depth 2-5) over literals, injected scalars of all 12 numeric kinds, strings, bools, struct fields, map / slice elements, locals, calls, rendered with minimal parentheses; @name/@id/@desc/@sal with several rules per text; matrix: every ordered pair of operand kinds x 10 operators with boundary values (2^53 neighbours, int64/uint64 extremes, zero divisors); non-trivial = the rule returned a value",
+        "trusted_base": TB_EVAL, "fingerprints": EVAL_FP,
+        "assumptions": ["float64 operations of Go and of Lean's Float are both IEEE-754 binary64"],
+    },
     "C02": {
         "lean": ["GV.Props.C02"],
         "scenarios": [{"scn": "eval", "filter": "stmt", "n": {"quick": 300, "thorough": 4000},
-                       "aspects": ["value", "state", "trace", "driver", "build", "hang"]}],
-        "rule": "random statement programs (nested if / else-if / else, for, forRange, break, continue, return at any depth, plain and compound assignments to locals, struct fields, pointer scalars, map / slice / array elements, observer calls), random injected data incl. boundary values; non-trivial = the rule ran to completion",
-        "trusted_base": [],
-        "fingerprints": ["internal/base:", "context:", "internal/core:", "internal/iter:"],
+                       "aspects": ["value", "state", "trace", "shape", "driver", "build", "hang"]}],
+        "rule": "random statement programs (nested if / else-if / else, for, forRange, break, continue, return at any depth, conc, plain and compound assignments to locals, struct fields, pointer scalars, map / slice / array elements, observer calls), random injected data incl. boundary values; non-trivial = the rule ran to completion",
+        "trusted_base": TB_EVAL, "fingerprints": EVAL_FP,
+        "assumptions": [],
+    },
+    "C03": {
+        "lean": ["GV.Props.C03"],
+        "scenarios": [{"scn": "eval", "filter": "stmt", "n": {"quick": 300, "thorough": 4000},
+                       "aspects": ["value", "state", "trace", "driver", "build"]},
+                      {"scn": "eval", "filter": "locals", "n": {"quick": 100, "thorough": 1000},
+                       "aspects": ["value", "state", "driver", "build"]},
+                      {"scn": "eval", "filter": "matrix", "n": {"quick": 98, "thorough": 980},
+                       "aspects": ["value", "driver", "build"]}],
+        "rule": "programs reading and writing injected scalars (by value / by pointer), struct fields (pointer and value receivers), maps (string / int64 / int32 keys, pointer and value), slices, arrays, calling injected functions with every numeric parameter kind and methods; host state compared after every rule; a name injected while the rule runs; non-trivial = the rule ran to completion",
+        "trusted_base": TB_EVAL, "fingerprints": EVAL_FP,
+        "assumptions": ["converted values are representable in the target (otherwise implementation defined: skipped)"],
+    },
+    "C15": {
+        "lean": ["GV.Props.C15"],
+        "scenarios": [{"scn": "eval", "filter": "locals", "n": {"quick": 200, "thorough": 3000},
+                       "aspects": ["value", "state", "trace", "conc-locals", "driver", "build"]},
+                      {"scn": "eval", "filter": "stmt", "n": {"quick": 150, "thorough": 2000},
+                       "aspects": ["value", "driver", "build"]}],
+        "rule": "2-4 rules per text reusing the same local names: assigned at top level / nested in if / in loops / only while an injected flag holds / never; every rule possibly executed twice; a local whose name is injected mid-rule; plus K = 2-6 barrier-synchronised concurrent executions of one rule entity, each of which must return its own tick(); non-trivial = a rule returned a value",
+        "trusted_base": TB_EVAL + ["the concurrent probe's oracle (each execution returns its own tick) is computed by the harness"],
+        "fingerprints": EVAL_FP, "assumptions": [],
+    },
+    "C18": {
+        "lean": ["GV.Props.C18"],
+        "scenarios": [{"scn": "eval", "filter": "conc", "n": {"quick": 300, "thorough": 4000},
+                       "aspects": ["value", "state", "trace", "cite", "hang", "panic", "shape", "driver", "build"]}],
+        "rule": "programs in which about a third of the statements are conc blocks of 1-9 independent children (assignments to distinct fields / locals / pointer scalars, observer function calls and method calls with distinct arguments and a delay, at most one failing child: panic, unknown name, unknown field, dotted read of an undefined local), followed by statements that read what the block wrote; observer events of one block compared as a set, their position relative to the other events exactly; non-trivial = the rule ran to completion",
+        "trusted_base": TB_EVAL + ["sync.WaitGroup / goroutine semantics modelled as a counter LTS (GV.Orch.Sched), not verified",
+                                   "children of one conc block are independent in generated programs (sequential order of the model is one of the equivalent orders)"],
+        "fingerprints": EVAL_FP, "assumptions": ["Go scheduler fairness"],
+    },
+    "C20": {
+        "lean": ["GV.Props.C20"],
+        "scenarios": [{"scn": "eval", "filter": "lines", "n": {"quick": 250, "thorough": 3000},
+                       "aspects": ["cite", "shape-pos", "driver", "build"]},
+                      {"scn": "eval", "filter": "ill", "n": {"quick": 350, "thorough": 4000},
+                       "aspects": ["cite", "shape-pos", "driver", "build"]}],
+        "rule": "lines: 1-3 rules per text, every token possibly on its own line, blank lines; ill: one construct in eight is ill-typed / unknown / out of range / panicking (arithmetic, comparison, logic, calls, assignments, element accesses, forRange); the cited line is compared with the line of the failing construct in the generator's reference tree; non-trivial = a rule failed citing a line",
+        "trusted_base": TB_EVAL, "fingerprints": EVAL_FP,
         "assumptions": [],
     },
 }
@@ -105,6 +175,11 @@ ORCH_NOTE = ("Model = skeleton regenerated from engine/gengine.go by /verif/extr
              "rule sets, outcomes, n/m, name lists and interleavings; rule bodies are opaque (their outcome is measured per rule "
              "by the harness). Trusted: Lean kernel (axioms propext/Classical.choice/Quot.sound), extractor, harness gate "
              "scheduler, comparator, WaitGroup/goroutine semantics as modelled by the counter LTS; Go scheduler fairness assumed.")
+
+EVAL_NOTE = ("Model = hand-written Lean interpreter over the AST the real listener builds (dumped by reflection on every run), "
+             "Spec = reference semantics over reference trees; theorems hold for all programs, environments and values of the "
+             "object language; tie = differential runs Impl vs Model vs Spec plus listener-shape comparison; source fingerprints only "
+             "widen the search. Not modelled: ANTLR text->tree, reflect internals, Go scheduler. Trusted: Lean kernel, harness, comparator.")
 
 MANIFEST_TEXT = {
     "C04": {"text": "Proof: the extracted skeletons of Execute / ExecuteSelectedRules / ExecuteSelectedRulesWithControl are instances (rfl) of the sorted-family template, which conforms to the reference semantics for every configuration (order, exactly once, both error policies); differential runs of the real engine against model and spec find the replay when an obligation breaks.",
@@ -128,5 +203,24 @@ MANIFEST_TEXT["C08"] = {
     "text": "Proof: container invariant (unique names, sorted slice is a permutation of the rule map in non-increasing salience order, index map = positions) is preserved by full build, incremental merge (binary-search insertion with the shadowed mid) and removal for every map iteration order, and each operation refines the abstract rule-set operation; history_refines lifts this to every finite history. Differential histories against the real builder tie the hand-written model to the code.",
     "note": "Model of the merge loop is hand-written (value level), tied by differential histories and source fingerprints rather than regenerated; Lean kernel + harness + comparator trusted.",
     "technique": "Lean 4 invariant + refinement proof + differential operation histories"}
+
+MANIFEST_TEXT.update({
+    "C01": {"text": "Proof: (a) arith_correct / cmp_correct / goCmpInt_exact: the code's arithmetic and comparison primitives equal the reference semantics for all operand values of all kinds (64-bit wrapping, float promotion, exact integer comparison, string concat, errors for ill-typed operands and zero divisors); (b) lowerX_correct: the interpreter on the AST shape the listener builds computes the reference meaning of every well-formed expression tree in every environment. Differential runs (random trees, kind x kind x operator matrix with boundary values, @-constants) tie model, listener shape and primitives to the code.",
+            "note": EVAL_NOTE, "technique": "Lean 4 proof (value-level equalities + structural induction over expression trees) + differential runs incl. listener-shape comparison"},
+    "C02": {"text": "Proof: rule_refines: for every well-formed statement program, environment and primitives, RuleEntity.Execute's model on the listener's AST equals the reference meaning (source order, first true branch, for/forRange, break/continue innermost, return from any depth, compound assignment, flat locals); clause theorems read each sentence off the reference semantics (loops absorb break/continue, forRange visits each key once, step after continue). Differential runs on random statement programs compare value, host state and observer trace.",
+            "note": EVAL_NOTE, "technique": "Lean 4 refinement proof (mutual structural induction) + clause theorems + differential runs"},
+    "C03": {"text": "Proof: theorems over the data-layer model: injected names win for reads and writes, writes leave every other object and every other field untouched, field writes store the converted value, conversions within and across numeric classes, narrowing preserves representable values, arguments positional and converted, missing map key reads zero. Differential runs compare host-visible state after every rule over structs, pointers, maps, slices, arrays, functions and methods.",
+            "note": EVAL_NOTE, "technique": "Lean 4 proofs over the store model + differential state comparison"},
+    "C15": {"text": "Proof: an execution's outcome is independent of any incoming local table (fresh locals), an unassigned local reads as not-found, injected state is what is passed from rule to rule, injected names win over locals. Differential runs: rule sequences and repeated executions reusing local names, a name injected mid-rule, and barrier-synchronised concurrent executions of one rule entity.",
+            "note": EVAL_NOTE + " Concurrent executions: the model gives each execution its own table by construction; that the code does is checked by the concurrent probe only (partial).",
+            "technique": "Lean 4 proofs over the interpreter model + differential runs + concurrent probe"},
+    "C18": {"text": "Proof: (1) the reference meaning of a conc block runs every child exactly once and fails, after all children, iff one failed, with the first error (C18_all_children_run, C18_child_error_fails_block, C18_all_ok), tied to the interpreter by rule_refines; (2) join: the fan-out is the one-stage instance of the WaitGroup transition system: in every interleaving Wait is passed only after every child started and ended exactly once (C18_join, C18_no_early_pass). Differential runs with delayed observer children, failing children and statements reading the block's writes.",
+            "note": EVAL_NOTE + " The WaitGroup LTS is hand-written from ConcStatement.Evaluate (Add(n); n goroutines ending in Done; Wait) and tied by the trace comparison; lock discipline of lockVars is exercised (hang detection), not proved.",
+            "technique": "Lean 4 proofs (induction over children + LTS invariant) + differential runs"},
+    "C20": {"text": "Proof: lowering copies each construct's line into its AST node; the reference semantics cites the failing construct's own line for arithmetic, comparison, logic, call and assignment faults and keeps the innermost citation; rule_refines / lowerX_correct carry this to the interpreter. Differential runs over multi-line renderings compare the line the real error cites with the failing construct's line in the reference tree, and the positions the listener recorded with the lowering (shape-pos).",
+            "note": EVAL_NOTE, "technique": "Lean 4 proofs over reference semantics + differential cited-line and position comparison"},
+})
+MANIFEST_TEXT["C09"] = {"text": "Proof: engine level: for every ResultsWF skeleton (all 21 extracted ones) no execution method panics; rule level: with the recover at RuleEntity.Execute (fact regenerated from source) no rule body and no data make the rule's execution panic, an unbounded for loop is cut off with an error after maxExecuteNum iterations, and the interpreter model is total. Differential fault injection: ill-typed programs, panicking injected functions, unbounded loops, failing conc children, in a child process with a hang timeout.",
+    "note": ORCH_NOTE + " " + EVAL_NOTE, "technique": "Lean 4 no-panic theorems over regenerated skeletons and facts + totality of the interpreter model + fault-injection differential runs"}
 
 NOT_APPLICABLE = {}
